@@ -104,6 +104,12 @@ Atomic(i) ==
               /\ (c.status = "OK") => ReportedOK(c, last', "FETCH")
          [] c.act = "Expunge" -> Expunge(c.sess, c.uid, c.set)
          [] c.act = "Noop" -> Noop(c.sess)
+         [] c.act = "Select" ->
+              \* (mostly a re-SELECT of the selected mailbox): the count it announced is the count of
+              \* the state it is linearized in, and what is queued for the session afterwards (final
+              \* state's pend) is what happened after that point only
+              /\ Select(c.sess, c.mbox, FALSE)
+              /\ (c.status = "OK") => (last'.told.exists = c.exists)
          [] c.act = "PopQuit" -> PopQuit(c.uids)
          [] c.act = "Search" ->
               /\ Search(c.sess, c.uid, c.key)
